@@ -514,7 +514,7 @@ pub fn restrictions(net: &Net, tier: Tier) -> Vec<Restr> {
             for lax_first in [true, false] {
                 for (vi, v) in [vehicle(13.5, 9000.0, 4), vehicle(13.0, 8000.0, 4)].iter().enumerate() {
                     cnt += 1;
-                    if tier == Tier::Quick && (cnt + idx) % 4 != 0 {
+                    if tier == Tier::Quick && (cnt + idx) % 8 != 0 {
                         continue;
                     }
                     let e = (ti + vi + idx) % m;
